@@ -914,7 +914,7 @@ func TestC13(t *testing.T) {
 	// in replay mode the probes only set the exclusion switches (so that a stored case is
 	// executed exactly as it was when it failed) and announce nothing
 	probeWeightDefects(t, stat.ReplayPath() == "")
-	stat.Check(t, st, "machine", stat.N(6000, 20000), drawMachine, runMachine)
+	stat.Check(t, st, "machine", stat.N(4000, 20000), drawMachine, runMachine)
 	stat.Check(t, st, "weightlist", stat.N(4000, 20000), drawWeightList, runWeightList)
 }
 
@@ -990,7 +990,7 @@ func drawConcurrent(rt *rapid.T) CCase {
 	c.Init = subset("init")
 	nupd := rapid.IntRange(1, 2).Draw(rt, "updaters")
 	for u := 0; u < nupd; u++ {
-		nops := rapid.IntRange(10, 120).Draw(rt, "nops")
+		nops := rapid.IntRange(10, 200).Draw(rt, "nops")
 		var ops []Op
 		for i := 0; i < nops; i++ {
 			k := rapid.SampledFrom([]string{"add", "add", "add", "remove", "remove", "remove", "refresh"}).Draw(rt, "op")
@@ -1367,7 +1367,7 @@ func TestC13Race(t *testing.T) {
 	// Known lines are emitted by unit 1 only
 	quietProbeWeightDefects()
 	probeRandomRace(t, stat.ReplayPath() == "")
-	stat.Check(t, st, "concurrent", stat.N(100, 250), drawConcurrent, runConcurrent)
+	stat.Check(t, st, "concurrent", stat.N(400, 1500), drawConcurrent, runConcurrent)
 }
 
 func quietProbeWeightDefects() {
